@@ -194,6 +194,8 @@ PCT_GROUP = {'x': 'xoX', 'X': 'xoX', 'o': 'xoX', 'f': 'f', 's': 'sra', 'r': 'sra
 
 
 def coarse_kind(expr):
+    if expr.startswith(('Decimal', 'Fraction')):
+        return 'obj'
     vc = value_class(expr)
     if vc.startswith(('int', 'bool')):
         return 'int'
@@ -220,6 +222,8 @@ def classify(fn, case, exp, got):
             feats.append('strwidth')
         if re.search(r'%[ +#]*(?:-[ +#]*0|0[ +#]*-)', tmpl):
             feats.append('minuszero')
+        if re.search(r'%[-0+#]* [-0 +#]*\d*(?:\.\d+)?[sra]', tmpl):
+            feats.append('spaceflag-str')
         kinds = sorted({coarse_kind(a.strip()) for a in re.split(r',\s*(?![^()]*\))', case['a'].strip()[1:-1]) if a.strip()})
         return 'fmt:%s:%s:%s:%s:%s->%s' % (fam, '+'.join(groups), '+'.join(feats) or '-', '+'.join(kinds), e, g)
     if fam == 'ctyped-fstring-conv' and fn.get('spec'):
